@@ -1,5 +1,7 @@
 import importlib.util
 
+import numpy as np
+
 from PEPit.wrapper import Wrapper
 from PEPit.point import Point
 from PEPit.expression import Expression
@@ -216,6 +218,11 @@ class CvxpyWrapper(Wrapper):
                 counter += 1
                 counter2 += 1
                 size = constraint_or_psd.shape[0] * constraint_or_psd.shape[1]
+                # Store the dual values of the entry-wise equalities between the lmi and the auxiliary psd variable.
+                # Their symmetric part is the dual matrix above; the complete proof needs them
+                # as soon as the (i, j) and (j, i) entries of the lmi are not written as the same expression.
+                constraint_or_psd.entries_dual_variable_value = np.array(
+                    dual_values_temp[counter: counter + size]).reshape(constraint_or_psd.shape)
                 counter += size
             else:
                 raise TypeError("The list of constraints that are sent to CVXPY should contain only"
